@@ -92,6 +92,18 @@ chk("C06", "model_checking",
     "TLA+ spec (RtrSession) model-checked by TLC incl. liveness; behaviours replayed into real client+server; impl->spec trace validation",
     "DESIGN.md §3 C06")
 
+chk("C08", "model_checking",
+    "RtrServerConn models one server connection at byte granularity (Deliver(n) for every n, Notify, client close; SelectNotify, "
+    "ReadHeader, ReadBody, Respond) with tagged bytes so loss/duplication/reordering is visible; TLC checks, for 4 query streams "
+    "(well-formed, bad length, unknown type, version switch / too high, error PDU), every fragmentation and notify interleaving: "
+    "responses without notifications = the answers determined by the query bytes, in order, nothing lost, notifications only between "
+    "responses, and liveness. For every model state a shortest environment script is run against the real Server on a controlled "
+    "socket (paused current_thread runtime) and its output compared; all socket reads/writes of those runs and of random chunkings "
+    "with notify storms are validated by Trace_RtrServerConn.",
+    "Single-threaded scheduler; a response is written without intervening reads; malformed queries are given exactly the bytes the server consumes.",
+    "TLA+ spec (RtrServerConn) model-checked by TLC incl. liveness; state-cover scripts replayed into the real server; impl->spec trace validation",
+    "DESIGN.md §3 C08")
+
 ALL = ["C%02d" % i for i in range(1, 18)]
 
 
